@@ -799,6 +799,10 @@ MANIFEST = dict(
     note='numpy.linalg inv/eig/svd replaced by contract stubs (textbook '
     'facts; real numpy outputs satisfy them in the differential runs); full '
     'rank / non-singularity genericity; floats as exact reals; log10/10**x '
-    'as an uninterpreted inverse pair',
+    'as an uninterpreted inverse pair'
+    ' Concrete data-representation / scale / boundary probes of the real'
+    ' code (dtype, container and memory-layout variants, argument'
+    ' immutability, magnitudes) accompany the symbolic runs; they are'
+    ' differential runs, not solver verdicts.',
     technique='symbolic execution on object arrays + contract stubs + '
     'linearised QF_LRA prover (z3); z3 NRA for order obligations')
